@@ -215,6 +215,8 @@ def writes_to_preexisting(r, allowed=()):
             bad.append(f"attribute store {target.cls.name}.{w[2]} at {w[4]}")
         elif kind == "tensor" and isinstance(target, STensor) and not target.fresh:
             bad.append(f"in-place tensor write to {target.name} at {w[4]}")
+        elif kind == "tensor" and isinstance(target, STensor) and isinstance(target.root().attrs.get("may_alias"), STensor) and not target.root().attrs["may_alias"].fresh:
+            bad.append(f"in-place tensor write to {target.name}, which may be a view of {target.root().attrs['may_alias'].name}, at {w[4]}")
         elif kind == "global":
             bad.append(f"global store {w[2]} at {w[4]}")
         elif kind == "tensor-attr" and not target.fresh:
@@ -365,6 +367,19 @@ def frames(run):
                             nw = len(E2.writes)
                             qw = E2.getattr(mod, "qweight")
                             w2 = list(E2.writes[nw:])
+                            # in-place arithmetic on the returned activation (h *= 0.5 after a layer): must stay local to the result
+                            w3 = None
+                            if is_wrapper(out1):
+                                nw = len(E2.writes)
+                                from qvc.interp import RaiseEx
+                                from qvc.tm_tensor import call_aten
+                                from qvc.values import AtenOp
+                                try:
+                                    call_aten(E2, AtenOp("mul_"), [out1, 0.5], {})
+                                    w3 = list(E2.writes[nw:])
+                                except RaiseEx:
+                                    w3 = None
+                            E2.ps["w3"] = w3
                             return mod, snap, w1, w2
 
                         try:
@@ -392,6 +407,13 @@ def frames(run):
                             run.add(f"C13/qweight-writes-nothing[{tag}]/path{pi}", r.hyps, z3.BoolVal(not b2), "property", inst, {"writes": b2[:5]}, replay=rp)
                             same = all(mod.fields.get(k) is v for k, v in snap.items())
                             run.add(f"C13/module-state-unchanged-by-forward[{tag}]/path{pi}", r.hyps, z3.BoolVal(bool(same)), "property", inst, replay=rp)
+                            w3 = r.ps.get("w3")
+                            if w3 is not None:
+                                r3 = R_()
+                                r3.writes = w3
+                                b3 = writes_to_preexisting(r3)
+                                run.add(f"C13/in-place-arithmetic-on-the-result-writes-no-module-state[{tag}]/path{pi}", r.hyps, z3.BoolVal(not b3), "property", inst, {"writes": b3[:5]},
+                                        replay=lambda m, s, i=dict(inst): replay_result_inplace(m, s, i))
                             # the returned activation must not be a handle on the module's state: copy_ / in-place ops on a result write its
                             # codes and scale in place, and would then rewrite a calibrated buffer
                             out1 = r.ps.get("fwd_out")
@@ -404,25 +426,26 @@ def frames(run):
     # ---- library entry points: quantize_weight / quantize_activation never modify the float tensors they read
     for fn, qnames in (("quantize_weight", ("qint8", "qfloat8_e4m3fn", "qint4", "qint2")), ("quantize_activation", ("qint8", "qfloat8_e5m2"))):
         for qn in qnames:
-            for grouped in ((False, True) if qn in ("qint4", "qint2") else (False,)):
-                inst = {"lemma": "frame", "function": fn, "qtype": qn, "grouped": grouped}
+            for grouped, axis in [(g_, a_) for g_ in ((False, True) if qn in ("qint4", "qint2") else (False,)) for a_ in ((0, -1) if fn == "quantize_weight" else (0,))]:
+                inst = {"lemma": "frame", "function": fn, "qtype": qn, "grouped": grouped, "axis": axis}
                 E = OC.engine(run)
                 E.load_module(QW)
                 ds, dpos = lib.dims("d", 2)
                 G, ag = z3.Ints("G ag")
 
-                def prog(E2, fn=fn, qn=qn, grouped=grouped):
+                def prog(E2, fn=fn, qn=qn, grouped=grouped, axis=axis):
                     for c in dpos:
                         E2.assume(c)
                     x = new_input(E2, "X", "float16", ds)
                     if fn == "quantize_weight":
                         if grouped:
+                            k = axis % 2
                             E2.assume(G >= 1)
                             E2.assume(ag >= 1)
-                            E2.assume(ds[1] == G * ag)
-                            for hh in CG.hints(ds, 0, ds[1], G, ag):
+                            E2.assume(ds[1 - k] == G * ag)
+                            for hh in CG.hints(ds, k, ds[1 - k], G, ag):
                                 E2.assume(hh)
-                        q = E2.call(E2.get(f"{QW}::quantize_weight"), [x, qt(E2, qn), 0, G if grouped else None], {})
+                        q = E2.call(E2.get(f"{QW}::quantize_weight"), [x, qt(E2, qn), axis, G if grouped else None], {})
                         return [x], q
                     s = new_input(E2, "S", "float16", [])
                     q = E2.call(E2.get(f"{QACT}::quantize_activation"), [x, qt(E2, qn), s], {})
@@ -434,7 +457,7 @@ def frames(run):
                     run.undecide(f"C13/frame[{fn}/{qn}]", u, inst)
                     continue
                 run.absorb(E)
-                tag = f"{fn}/{qn}/{'grouped' if grouped else 'nogroup'}"
+                tag = f"{fn}/{qn}/{'grouped' if grouped else 'nogroup'}/axis{axis}"
                 if not run.expect_paths(res, f"C13/frame[{tag}]", inst):
                     continue
                 rp = lambda m, s, i=dict(inst): replay_frames(m, s, i)
@@ -523,6 +546,38 @@ def replay_scoping(model, seed, inst):
     return None
 
 
+def replay_result_inplace(model, seed, inst):
+    """h = module(x); h *= 0.5 must not change the module."""
+    import torch
+    from optimum.quanto import qtypes
+    from optimum.quanto.nn import QConv2d, QLayerNorm, QLinear
+
+    torch.manual_seed(seed)
+    if inst["activations"] is None:
+        return None
+    kw = {"weights": qtypes[inst["weights"]] if inst["module"] != "layernorm" else None, "activations": qtypes[inst["activations"]]}
+    if inst["module"] == "linear":
+        m, x = QLinear(8, 4, **kw), torch.randn(2, 8)
+    elif inst["module"] == "conv2d":
+        m, x = QConv2d(4, 2, 1, **kw), torch.randn(1, 4, 2, 2)
+    else:
+        m, x = QLayerNorm((8,), **kw), torch.randn(2, 8)
+    m.input_scale.fill_(0.02); m.output_scale.fill_(0.03)
+    if inst["frozen"]:
+        m.freeze()
+    with torch.no_grad():
+        before = {k: v.clone() for k, v in m.state_dict().items() if type(v) is torch.Tensor}
+        h = m(x)
+        try:
+            h *= 0.5
+        except Exception:
+            return None
+    for k, v in before.items():
+        if not torch.equal(v, m.state_dict()[k]):
+            return {"what": f"in-place arithmetic on the result of forward (h *= 0.5) changed the module's '{k}'", "before": v.flatten()[:3].tolist(), "after": m.state_dict()[k].flatten()[:3].tolist()}
+    return None
+
+
 def replay_result_alias(model, seed, inst):
     """out = module(x); out.copy_(p) must not change the module (its calibrated scales)."""
     import torch
@@ -566,8 +621,18 @@ def replay_frames(model, seed, inst):
         x = torch.randn(4, 8, dtype=torch.float16)
         x0 = x.clone()
         if inst["function"] == "quantize_weight":
-            quantize_weight(x, qtypes[inst["qtype"]], 0, 4 if inst.get("grouped") else None)
-            return None if torch.equal(x, x0) else {"what": "quantize_weight modified its input"}
+            axis = inst.get("axis", 0)
+            for shape, gs in (((4, 8), 4), ((1, 8), 4), ((8, 1), 1), ((64, 16), 64), ((16, 4), 16)):
+                xx = torch.randn(*shape, dtype=torch.float16)
+                xx0 = xx.clone()
+                try:
+                    with torch.no_grad():
+                        quantize_weight(xx, qtypes[inst["qtype"]], axis, gs if inst.get("grouped") else None)
+                except ValueError:
+                    continue
+                if not torch.equal(xx, xx0):
+                    return {"what": "quantize_weight modified its input", "shape": list(shape), "axis": axis, "group_size": gs if inst.get("grouped") else None}
+            return None
         for sv in (0.0, 0.5):
             s = torch.tensor(sv, dtype=torch.float16)
             s0 = s.clone()
@@ -576,10 +641,21 @@ def replay_frames(model, seed, inst):
                 return {"what": "quantize_activation modified the tensors it reads", "scale_before": s0.item(), "scale_after": s.item()}
         return None
     kw = {"weights": qtypes[inst["weights"]] if inst["module"] != "layernorm" else None, "activations": qtypes[inst["activations"]] if inst["activations"] else None}
+    for out_features in (4, 1):
+        r_ = _replay_frames_module(inst, kw, out_features)
+        if r_:
+            return r_
+    return None
+
+
+def _replay_frames_module(inst, kw, out_features):
+    import torch
+    from optimum.quanto.nn import QConv2d, QLayerNorm, QLinear
+
     if inst["module"] == "linear":
-        m, x = QLinear(8, 4, **kw), torch.randn(2, 8)
+        m, x = QLinear(8, out_features, **kw), torch.randn(2, 8)
     elif inst["module"] == "conv2d":
-        m, x = QConv2d(4, 2, 1, **kw), torch.randn(1, 4, 2, 2)
+        m, x = QConv2d(4, out_features, 1, **kw), torch.randn(1, 4, 2, 2)
     else:
         m, x = QLayerNorm((8,), **kw), torch.randn(2, 8)
     if inst.get("input") == "float16":
@@ -608,7 +684,7 @@ def replay_file(path):
     import json
     rec = json.load(open(path))
     inst = rec["instance"]
-    r = replay_result_alias({}, 0, inst) if "result-aliases-module-state" in rec.get("obligation", "") else replay_scoping({}, 0, inst) if inst.get("lemma") == "scoping" else replay_frames({}, 0, inst) if inst.get("lemma") == "frame" else \
+    r = replay_result_inplace({}, 0, inst) if "in-place-arithmetic-on-the-result" in rec.get("obligation", "") else replay_result_alias({}, 0, inst) if "result-aliases-module-state" in rec.get("obligation", "") else replay_scoping({}, 0, inst) if inst.get("lemma") == "scoping" else replay_frames({}, 0, inst) if inst.get("lemma") == "frame" else \
         replay_quantize_frame({}, 0, inst) if inst.get("lemma") == "quantize() frame" else None
     print(json.dumps(r, indent=1, default=str))
     return 1 if r else 0
